@@ -76,7 +76,7 @@ def check(world) -> Dict[str, Any]:
         if len(edges) <= b["E"]:
             orig = {e: g.edges[e]["weight"] for e in edges}
             todo = [[(e, nw)] for e in edges for nw in (0, orig[e] // 2, 2 * orig[e] + 1) if nw != orig[e]]
-            if b["pairs"] and len(edges) <= 10:
+            if b["pairs"] and len(edges) <= 8:
                 todo += [[(e1, 2 * orig[e1] + 1), (e2, 0)] for e1 in edges for e2 in edges if e1 != e2]
             for changes in todo:
                 for e, nw in changes:
